@@ -353,6 +353,9 @@ func (f *File) Read(b []byte) (int, error) {
 	if err, _ := f.fsys.step("read", f.name, len(b), false); err != nil {
 		return 0, pathErr("read", f.name, err)
 	}
+	if len(b) == 0 {
+		return 0, nil // like *os.File: a zero-length read never reports EOF
+	}
 	f.fsys.mu.Lock()
 	defer f.fsys.mu.Unlock()
 	if f.pos >= len(f.n.data) {
